@@ -437,14 +437,16 @@ end
 
 /-- **C12a on the output text, token form.**  Pretty class, a token sequence the plain parser builds into the strict
     single-root document `u`: the output text is the rendering of the tokens the strict lexer reads back from it, and
-    those tokens obey the layout law (`Scan`), with depth and pre/code-ness recomputed from the tokens alone. -/
-theorem pretty_layout_core (cfg : Cfg) (hm : cfg.mini = false) (hi : IndentWS cfg) (dt : Option Str) (hdt : DtOK dt)
+    those tokens obey the layout law (`Scan`), with depth and pre/code-ness recomputed from the tokens alone.  `ps` is
+    the plain parser's final state: elements still open at the end of the input are allowed (the serialiser closes
+    them). -/
+theorem pretty_layout_core_open (cfg : Cfg) (hm : cfg.mini = false) (hi : IndentWS cfg) (dt : Option Str) (hdt : DtOK dt)
     (n : Str) (st : AStore) (sc : Bool) (kids : List FNode) (hs : (FNode.elem n st sc kids).Strict)
-    (hnw : (FNode.elem n st sc kids).NoWrapper) (toks : List Tok) (hnws : NoWrapperStart toks)
-    (hp : Plain.feed toks = .ok ⟨[], some (FNode.elem n st sc kids).toNode, dt, 0, 0⟩) :
+    (hnw : (FNode.elem n st sc kids).NoWrapper) (toks : List Tok) (hnws : NoWrapperStart toks) (ps : St)
+    (hp : Plain.feed toks = .ok ps) (hroot : ps.root = some (FNode.elem n st sc kids).toNode) (hd : ps.doctype = dt) :
     ∃ out toks2, format cfg toks = .ok out ∧ lexStrict out = some toks2 ∧
       out = renderToksY (styleOf cfg.kind) toks2 ∧ Scan (styleOf cfg.kind) cfg.indent [] [] toks2 := by
-  obtain ⟨f1, l1, _, _, s1, _⟩ := pass_step cfg hi dt hdt n st sc kids hs hnw toks hnws hp
+  obtain ⟨f1, l1, _, _, s1, _⟩ := pass_step_open cfg hi dt hdt n st sc kids hs hnw toks hnws ps hp hroot hd
   refine ⟨_, _, f1, l1, rfl, ?_⟩
   have hI := indentAt_pretty cfg hm ⟨0, 0⟩ rfl
   have hblocks : Scan (styleOf cfg.kind) cfg.indent [] (renderToksY (styleOf cfg.kind) (dtToks dt))
@@ -467,5 +469,14 @@ theorem pretty_layout_core (cfg : Cfg) (hm : cfg.mini = false) (hi : IndentWS cf
     · simp only [dtToks, hd, Bool.false_eq_true, if_false, List.cons_append, List.nil_append, Scan, LayoutAt,
         stAfter, true_and]
       simpa [dtToks, hd, renderToksY] using hblocks
+
+/-- `pretty_layout_core_open` for a token sequence that leaves nothing open -/
+theorem pretty_layout_core (cfg : Cfg) (hm : cfg.mini = false) (hi : IndentWS cfg) (dt : Option Str) (hdt : DtOK dt)
+    (n : Str) (st : AStore) (sc : Bool) (kids : List FNode) (hs : (FNode.elem n st sc kids).Strict)
+    (hnw : (FNode.elem n st sc kids).NoWrapper) (toks : List Tok) (hnws : NoWrapperStart toks)
+    (hp : Plain.feed toks = .ok ⟨[], some (FNode.elem n st sc kids).toNode, dt, 0, 0⟩) :
+    ∃ out toks2, format cfg toks = .ok out ∧ lexStrict out = some toks2 ∧
+      out = renderToksY (styleOf cfg.kind) toks2 ∧ Scan (styleOf cfg.kind) cfg.indent [] [] toks2 :=
+  pretty_layout_core_open cfg hm hi dt hdt n st sc kids hs hnw toks hnws _ hp rfl rfl
 
 end AHP.Fmt
